@@ -1,7 +1,6 @@
 (* Hyperbolic-function facts used by Proofs/Dispersion.v (not in the Coq 8.16 standard library). *)
 From Coq Require Import Reals Lra.
 From Coquelicot Require Import Coquelicot.
-From Interval Require Import Tactic.
 Open Scope R_scope.
 
 Lemma cosh_pos x : 0 < cosh x.
@@ -106,3 +105,34 @@ Proof.
   pose proof (sinh_pos (y - x)). lra.
 Qed.
 
+
+(* a lower bound of exp 10 by ten squarings of exp(10/1024) >= 1 + 10/1024 (no Interval, so no
+   primitive-float primitives in the assumptions) *)
+Lemma exp_sq_lb x b : 0 <= b -> b <= exp x -> b * b <= exp (2 * x).
+Proof. intros Hb H. replace (2 * x) with (x + x) by ring. rewrite exp_plus. apply Rmult_le_compat; auto. Qed.
+Lemma exp10_lb : 20001 < exp 10.
+Proof.
+  assert (H0 : 517 / 512 <= exp (10 / 1024)).
+  { apply Rle_trans with (1 + 10 / 1024); [lra | left; apply exp_ineq1; lra]. }
+  assert (H1 : 101962661 / 100000000 <= exp (10 / 512)).
+  { replace (10 / 512) with (2 * (10 / 1024)) by field. apply Rle_trans with (517 / 512 * (517 / 512)). lra. apply exp_sq_lb; [lra|exact H0]. }
+  assert (H2 : 51981921 / 50000000 <= exp (10 / 256)).
+  { replace (10 / 256) with (2 * (10 / 512)) by field. apply Rle_trans with (101962661 / 100000000 * (101962661 / 100000000)). lra. apply exp_sq_lb; [lra|exact H1]. }
+  assert (H3 : 27021201 / 25000000 <= exp (10 / 128)).
+  { replace (10 / 128) with (2 * (10 / 256)) by field. apply Rle_trans with (51981921 / 50000000 * (51981921 / 50000000)). lra. apply exp_sq_lb; [lra|exact H2]. }
+  assert (H4 : 7301453 / 6250000 <= exp (10 / 64)).
+  { replace (10 / 64) with (2 * (10 / 128)) by field. apply Rle_trans with (27021201 / 25000000 * (27021201 / 25000000)). lra. apply exp_sq_lb; [lra|exact H3]. }
+  assert (H5 : 17059589 / 12500000 <= exp (10 / 32)).
+  { replace (10 / 32) with (2 * (10 / 64)) by field. apply Rle_trans with (7301453 / 6250000 * (7301453 / 6250000)). lra. apply exp_sq_lb; [lra|exact H4]. }
+  assert (H6 : 186258929 / 100000000 <= exp (10 / 16)).
+  { replace (10 / 16) with (2 * (10 / 32)) by field. apply Rle_trans with (17059589 / 12500000 * (17059589 / 12500000)). lra. apply exp_sq_lb; [lra|exact H5]. }
+  assert (H7 : 173461943 / 50000000 <= exp (10 / 8)).
+  { replace (10 / 8) with (2 * (10 / 16)) by field. apply Rle_trans with (186258929 / 100000000 * (186258929 / 100000000)). lra. apply exp_sq_lb; [lra|exact H6]. }
+  assert (H8 : 60178091 / 5000000 <= exp (10 / 4)).
+  { replace (10 / 4) with (2 * (10 / 8)) by field. apply Rle_trans with (173461943 / 50000000 * (173461943 / 50000000)). lra. apply exp_sq_lb; [lra|exact H7]. }
+  assert (H9 : 28971221 / 200000 <= exp (10 / 2)).
+  { replace (10 / 2) with (2 * (10 / 4)) by field. apply Rle_trans with (60178091 / 5000000 * (60178091 / 5000000)). lra. apply exp_sq_lb; [lra|exact H8]. }
+  assert (H10 : 209832911 / 10000 <= exp (10 / 1)).
+  { replace (10 / 1) with (2 * (10 / 2)) by field. apply Rle_trans with (28971221 / 200000 * (28971221 / 200000)). lra. apply exp_sq_lb; [lra|exact H9]. }
+  replace (10 / 1) with 10 in H10 by field. lra.
+Qed.
